@@ -22,20 +22,21 @@ EXTENDS Threadsafe, IOUtils
 
 CONSTANT Strict
 
-VARIABLES tid, l
-tvars == <<work, faults, pc, idx, buf, sem, tlog, ncalls, exc, completed, raisedAt, hist, tid, l>>
+VARIABLES tid, l,
+          sval   \* the semaphore's counter as observed (1 = free, 0 = taken; anything else is a protocol failure)
+tvars == <<work, faults, pc, idx, buf, sem, tlog, ncalls, exc, completed, raisedAt, hist, tid, l, sval>>
 
 Traces == JsonDeserialize(IOEnv.TRACE_FILE)
 
 SetOf(s) == {s[i] : i \in DOMAIN s}
 Pair(r) == [n |-> SetOf(r.n), g |-> SetOf(r.g)]
-ItemOf(j) == [kind |-> j.kind, out |-> j.out, gt |-> Pair(j.gt), xt |-> Pair(j.xt)]
+ItemOf(j) == [kind |-> j.kind, out |-> j.out, gt |-> Pair(j.gt), xt |-> Pair(j.xt), st |-> j.st, en |-> j.en]
 WorkOf(tr) == [t \in DOMAIN tr.work |-> [i \in DOMAIN tr.work[t] |-> ItemOf(tr.work[t][i])]]
 FaultsOf(tr) == {<<tr.faults[k][1], tr.faults[k][2]>> : k \in DOMAIN tr.faults}
 
 TraceInit ==
     \E n \in DOMAIN Traces :
-        /\ tid = n /\ l = 0
+        /\ tid = n /\ l = 0 /\ sval = 1
         /\ InitWith(WorkOf(Traces[n]), FaultsOf(Traces[n]))
 
 Ev == Traces[tid].ev[l + 1]
@@ -50,17 +51,22 @@ StrictStep ==
          [] e.act = "release" -> Release(t) /\ e.ret = (IF exc[t] THEN "raised" ELSE "ok")
          [] OTHER -> FALSE
     /\ sem' = e.holder
+    /\ sval' = (IF sem' = Free THEN 1 ELSE 0) /\ sval' = e.semval
 
+\* TOTAL: every observation is representable - a non-blocking acquire that fails (try_acquire, got = FALSE), a
+\* release by a thread that holds nothing, a counter above 1.  What such an execution means is for the invariants.
 LooseStep ==
-    LET e == Ev  t == e.thr  i == IF e.act = "local" THEN idx[t] + 1 ELSE idx[t] IN
+    LET e == Ev  t == e.thr  i == IF e.act = "local" THEN idx[t] + 1 ELSE idx[t]
+        took == e.act = "acquire" \/ (e.act = "try_acquire" /\ e.got) IN
     /\ t \in Threads
-    /\ e.act \in {"local", "acquire", "call", "release"}
     /\ idx' = [idx EXCEPT ![t] = i]
-    /\ sem' = CASE e.act = "acquire" -> t [] e.act = "release" -> Free [] OTHER -> sem
+    \* the holder is the last thread that took a permit and has not given one back
+    /\ sem' = IF took THEN t ELSE IF e.act = "release" /\ sem = t THEN Free ELSE sem
+    /\ sval' = e.semval
     /\ tlog' = IF e.act = "call" THEN Append(tlog, EntryOf(e)) ELSE tlog
     /\ pc' = [pc EXCEPT ![t] = IF e.ret # None THEN "idle"
                                 ELSE IF e.act = "local" THEN "acq"
-                                ELSE IF e.act = "acquire" THEN "in" ELSE @]
+                                ELSE IF took \/ e.act = "try_acquire" THEN "in" ELSE @]
     /\ completed' = IF e.ret = "ok" THEN completed \cup {<<t, i>>} ELSE completed
     /\ raisedAt' = IF e.ret = "raised" THEN raisedAt \cup {<<t, i>>} ELSE raisedAt
     /\ UNCHANGED <<work, faults, buf, ncalls, exc, hist>>
@@ -82,7 +88,12 @@ AcceptC ==
     /\ AtEnd => PrintT(<<"ACCEPT", tid>>)
 
 \* an execution that ran to completion leaves every thread finished and the semaphore free
+\* Released, on the counter itself: it is 1 exactly when no thread holds the semaphore, and 0 otherwise - a release
+\* without a successful acquire (counter 2: two blocks can then run at once) breaks this
+ReleasedCount == /\ sval \in {0, 1}
+                 /\ (sval = 1) = (sem = Free)
+
 EndState == (AtEnd /\ Traces[tid].complete) =>
-               /\ sem = Free
+               /\ sem = Free /\ sval = 1
                /\ \A t \in Threads : pc[t] = "idle" /\ idx[t] = Len(work[t])
 =============================================================================
